@@ -474,3 +474,30 @@ func VH_C19_cli_limit() {
 		vAssert("C19.cli.limit.room-for-everything-no-error", err == nil)
 	}
 }
+
+// VH_C01_cli: the `sam toMultiAlign` command line (--start/--end, --pad, --wrap, --threads) is wired to the
+// library call as documented.
+func VH_C01_cli() {
+	samf := vFile("in.sam", []byte(vCliSam))
+	pad := vBool("pad")
+	wrap := []int{-1, 3, 8}[vChoice("wrap", 3)]
+	threads := 1 + vChoice("threads", 2)
+	start, end := -1, -1
+	switch vChoice("window", 4) {
+	case 1:
+		start = 1 + vChoice("start", 8)
+	case 2:
+		end = 1 + vChoice("end", 8)
+	case 3:
+		start = 1 + vChoice("start", 8)
+		end = 1 + vChoice("end", 8)
+		vAssume(start <= end)
+	}
+	out := vFile("out.fa", nil)
+	e1 := vCLI("sam", "toMultiAlign", "-s", samf, "-t", strconv.Itoa(threads), "-o", out, "--start", strconv.Itoa(start), "--end", strconv.Itoa(end),
+		vBoolFlag("pad", pad), "--wrap", strconv.Itoa(wrap), "--trimstart", "-1", "--trimend", "-1", "--trim=false")
+	w := &vCapture{}
+	e2 := sam.ToMultiAlign(bytes.NewReader([]byte(vCliSam)), w, wrap, start, end, pad, 1)
+	vAssert("C01.cli.run-ok", e1 == nil && e2 == nil)
+	vAssert("C01.cli.equals-library-call", vReadFile(out) == string(w.buf) && len(w.buf) > 0)
+}
